@@ -26,7 +26,7 @@ def generate(streams, tier):
         config = W.gen_bn_config(streams, world)
         ref = RefJoint.from_bn(world)
     else:
-        world = W.gen_mn(streams, max_n=6, min_n=1, max_joint=2048, connected=True, dup_rate=r.choice([0.0, 0.0, 0.4]))
+        world = W.gen_mn(streams, max_n=6, min_n=1, max_joint=2048, connected=True, dup_rate=r.choice([0.0, 0.0, 0.4]), scale_rate=0.2, hub_rate=0.15)
         config = {"factor_order": shuffled(streams.s("insertion"), range(len(world["factors"]))), "edge_order": shuffled(streams.s("insertion"), world["edges"])}
         ref = RefJoint.from_factors(world["card"], world["factors"])
     rw = streams.s("workload")
